@@ -135,6 +135,11 @@ package parse
 //@   requires[S] l != nil && bufInv(l) && l.start <= l.pos
 //@   requires[F] @line: wfU8(l.buf) ==> line == 1 + lbEnds(l.buf, 0, l.pos)
 //@   loop 1 invariant bufInv(l) && l.start <= l.pos
+// the context is the rest of the line: the scan stops only at a line break or at the end of the input (a NUL inside the
+// text is part of the line and is rendered as a middle dot)
+//@   ensures[F,C15,local] @rest-of-line: forall(k, old(l.pos), l.pos, l.buf[k] != '\n' && l.buf[k] != '\r') &&
+//@        (l.buf[l.pos] == '\n' || l.buf[l.pos] == '\r' || l.pos == len(l.buf)-1 || l.err != nil)
+//@   loop 1 invariant[F] forall(k, old(l.pos), l.pos, l.buf[k] != '\n' && l.buf[k] != '\r') && l.pos >= old(l.pos)
 //@   loop 2 invariant rangeindex >= -1 && rangeindex < len(rs)
 
 // ---- errors
@@ -265,6 +270,9 @@ package parse
 
 //@ func DecodeURL
 //@   ensures[S]  len(result) <= len(b)
+// decodes in place: nothing outside the argument's bytes is written
+//@   ensures[F,C16] @frame: sameBytesExcept(ptr(b), ptr(b) + len(b))
+//@   loop * invariant[F] sameBytesExcept(ptr(old(b)), ptr(old(b)) + len(old(b))) && ptr(b) == ptr(old(b)) && len(b) <= len(old(b))
 //@   loop * candidate 0 <= i && i <= len(b)
 //@   loop * candidate len(b) <= old(len(b))
 //@   loop * candidate i < j && j <= i + 3
@@ -279,6 +287,10 @@ package parse
 
 //@ func DataURI
 //@   ensures[S]  true
+// on success a media type is reported: the URI's own type/subtype, or text/plain when it has none (parameters only, or nothing)
+//@   requires[F] @not-the-default: disjoint(dataURI, textMimeBytes)
+//@   loop 1 invariant[F] @own-buffer: (cap(mediatype) == 0 || (disjoint(mediatype, dataURI) && fresh(mediatype))) && sameBytesExcept(0, 0)
+//@   ensures[F,C16] @mediatype: result2 == nil ==> len(result0) > 0 && result0[0] != ';'
 //@   loop * candidate 0 <= i && i <= j
 //@   loop * candidate 0 <= j && j <= len(dataURI)
 
@@ -287,7 +299,9 @@ package parse
 //@   ensures[S] result >= 0
 //@ extern encoding/base64.(*Encoding).Decode
 //@   readonly #0 #2
+//@   modifies M.uint8
 //@   ensures[S] 0 <= n && n <= len(dst)
+//@   ensures[S] @frame: sameBytesExcept(ptr(dst), ptr(dst) + len(dst))
 // u8len(r): the documented definition of utf8.RuneLen (-1 for surrogates and values outside [0, U+10FFFF])
 //@ pred u8len(r) := ite(r < 0, -1, ite(r < 128, 1, ite(r < 2048, 2, ite(55296 <= r && r <= 57343, -1, ite(r < 65536, 3, ite(r <= 1114111, 4, -1))))))
 //@ pred u8enc(r) := ite(u8len(r) == -1, 3, u8len(r))
